@@ -76,11 +76,13 @@ def expr_of_dim(draw, dim, allow_compound=True):
 
 
 def finite_floats(lo_exp=-250, hi_exp=250):
-    big = 10.0 ** hi_exp
+    """0, small integers, and sign*mantissa*10**e with e in [lo_exp, hi_exp] (never subnormal)"""
+    mant = st.one_of(st.floats(1.0, 10.0, exclude_max=True), st.sampled_from([1.0, 2.0, 2.5, 9.999999999999998]))
+    scaled = st.builds(lambda sg, m, e: sg * m * 10.0 ** e, st.sampled_from([1.0, -1.0]), mant,
+                       st.one_of(st.integers(lo_exp, hi_exp), st.integers(max(lo_exp, -6), min(hi_exp, 6))))
     return st.one_of(
         st.sampled_from([0.0, 1.0, -1.0, 2.0, 0.5, -3.25, 1e-7, 12345.678]),
-        st.floats(-1e6, 1e6, allow_nan=False),
-        st.floats(-big, big, allow_nan=False, allow_infinity=False),
+        scaled, scaled,
         st.integers(-1000, 1000).map(float),
     )
 
